@@ -123,8 +123,16 @@ class CompoundQuery(qcore.Query):
         subqueries = []
         for s in self.subqueries:
             s = s.normalize()
-            if isinstance(s, self.__class__):
-                subqueries += [ss.with_boost(ss.boost * s.boost) for ss in s]
+            if (isinstance(s, self.__class__)
+                and (s.boost == 1.0
+                     or all(hasattr(ss, "boost") for ss in s))):
+                # (Not every query type has a boost, e.g. span queries and
+                # ConstantScoreQuery; a boosted group of those stays nested)
+                if s.boost == 1.0:
+                    subqueries += list(s)
+                else:
+                    subqueries += [ss.with_boost(ss.boost * s.boost)
+                                   for ss in s]
             else:
                 subqueries.append(s)
 
